@@ -300,7 +300,11 @@ func replayMain(t *testing.T, p *Prop, path string) {
 		c = NewTape(rf.Tape)
 	}
 	out := execOnce(t, p, c, rf.Tier, rf.Avoid, true)
-	for _, l := range tail(out.Log, 60) {
+	nlog := 60
+	if os.Getenv("VERIF_FULL_LOG") != "" {
+		nlog = 1 << 30
+	}
+	for _, l := range tail(out.Log, nlog) {
 		fmt.Println("  ", l)
 	}
 	if out.Viol != nil {
